@@ -321,6 +321,7 @@ class Path:
     the untaken feasible alternatives are pushed to `pending` (list of decision lists)."""
 
     symbolic = True
+    __symex_opaque__ = True
     forker = None  # fork-mode exploration: split(n) -> index taken by this process
 
     def __init__(self, prefix=(), timeout_ms=10000, stats=None):
